@@ -24,14 +24,52 @@ def constCode (k : String) : Nat :=
   | "configapi.TransactionStatus_ROLLBACK" => 1
   | "configapi.Failure_CANCELED" => 1
   | "configapi.Failure_INVALID" => 7
+  | "codes.Canceled" => 1
+  | "codes.Unknown" => 2
+  | "codes.InvalidArgument" => 3
+  | "codes.DeadlineExceeded" => 4
+  | "codes.NotFound" => 5
+  | "codes.AlreadyExists" => 6
+  | "codes.PermissionDenied" => 7
+  | "codes.FailedPrecondition" => 9
+  | "codes.Unimplemented" => 12
+  | "codes.Internal" => 13
+  | "codes.Unavailable" => 14
+  | "codes.Unauthenticated" => 16
   | _ => 0
 
 def optPS (p : Option PS) : Nat := (p.getD .pending).toNat
 
+/-- `configapi.Failure_Type` as a number -/
+def failCode : Fail → Nat
+  | .unknown => 0 | .canceled => 1 | .notFound => 2 | .alreadyExists => 3 | .unauthorized => 4
+  | .forbidden => 5 | .conflict => 6 | .invalid => 7 | .unavailable => 8 | .notSupported => 9
+  | .timeout => 10 | .internal => 11
+
+/-- `codes.Code` of a device answer (google.golang.org/grpc/codes) -/
+def ansCode : DevAns → Nat
+  | .ok => 0 | .canceled => 1 | .unknown => 2 | .invalidArgument => 3 | .deadlineExceeded => 4
+  | .notFound => 5 | .alreadyExists => 6 | .permissionDenied => 7 | .failedPrecondition => 9
+  | .unimplemented => 12 | .internal => 13 | .unavailable => 14 | .unauthenticated => 16
+
+/-- what one invocation meets outside the records it reads (the environment of the twin's
+    reconcile functions and, for the dispatch functions, what the functions called return) -/
+structure SkX where
+  okSend : Bool := false       -- `applyValues` reached `conn.Set` (`canSend ∧ sendable`)
+  ans : DevAns := .ok          -- the device's answer
+  failureType : Nat := 0       -- the failure type the inner switch on `errorCode(err)` assigns
+  treeErr : Bool := false      -- `tree.BuildTree` fails on the candidate configuration
+  plugin : Bool := true        -- `r.plugins.GetPlugin` finds the model plugin
+  invalid : Bool := false      -- `modelPlugin.Validate` refuses the candidate configuration
+  okFirst : Bool := false      -- dispatch: the first function called (commit…) returns ok
+  errFirst : Bool := false     -- … returns an error
+  okSecond : Bool := false     -- dispatch: the second function called (apply…) returns ok
+  errSecond : Bool := false
+
 /-- the state one invocation for transaction `i` reads: the transaction, the configuration entry,
     the transaction the function looks up as `prevTransaction` (`Committed.Index` in the commit
     functions, `Applied.Index` in the apply functions) -/
-def gV3Of (i : Nat) (t : Tx) (c : Cfg) (prevNone : Bool) (p : Tx) : V2G :=
+def gV3Of (i : Nat) (t : Tx) (c : Cfg) (prevNone : Bool) (p : Tx) (x : SkX) : V2G :=
   { n := fun k =>
       match k with
       | "transaction.ID.Index" => i
@@ -57,6 +95,8 @@ def gV3Of (i : Nat) (t : Tx) (c : Cfg) (prevNone : Bool) (p : Tx) : V2G :=
       | "prevTransaction.Status.Change.Apply.State" => p.ca.toNat
       | "prevTransaction.Status.Rollback.Commit.State" => optPS p.rc
       | "prevTransaction.Status.Rollback.Apply.State" => optPS p.ra
+      | "code" => ansCode x.ans
+      | "failureType" => x.failureType
       | k => constCode k
     b := fun k =>
       match k with
@@ -70,6 +110,23 @@ def gV3Of (i : Nat) (t : Tx) (c : Cfg) (prevNone : Bool) (p : Tx) : V2G :=
       | "errors.IsNotFound(err)@r.transactions.Get#2" => true
       | "configuration.Committed.Values != nil" => true
       | "configuration.Applied.Values != nil" => true
+      | "ok@r.applyValues#1" => x.okSend
+      | "err@r.applyValues#1" => x.ans != .ok
+      | "err@tree.BuildTree#1" => x.treeErr
+      | "ok@r.plugins.GetPlugin#1" => x.plugin
+      | "err@modelPlugin.Validate#1" => x.invalid
+      | "ok@r.commitChange#1" => x.okFirst
+      | "err@r.commitChange#1" => x.errFirst
+      | "ok@r.applyChange#1" => x.okSecond
+      | "err@r.applyChange#1" => x.errSecond
+      | "ok@r.commitRollback#1" => x.okFirst
+      | "err@r.commitRollback#1" => x.errFirst
+      | "ok@r.applyRollback#1" => x.okSecond
+      | "err@r.applyRollback#1" => x.errSecond
+      | "ok@r.reconcileChange#1" => x.okFirst
+      | "err@r.reconcileChange#1" => x.errFirst
+      | "ok@r.reconcileRollback#1" => x.okFirst
+      | "err@r.reconcileRollback#1" => x.errFirst
       | _ => false }
 
 /-- value plumbing: what the loops over path values assign -/
@@ -98,15 +155,55 @@ theorem proj_append (a b : List Tok) : proj (a ++ b) = proj a ++ proj b := by
     cases x <;> simp only [List.cons_append, proj, ih] <;> split <;> simp
 
 /-- one act as the assignments and the write call it is in the Go code (`c`: the configuration the
-    invocation read) -/
-def actToks (c : Cfg) : Act → List Tok
+    invocation read; `swap`: the site in `applyChange` (apply ABORTED/FAILED) that assigns
+    `Applied.Index` before `Applied.Target`) -/
+def actToks (swap : Bool) (c : Cfg) : Act → List Tok
+  -- commitChange
+  | .cTarget i => [.setN "configuration.Committed.Target" i, .write "r.updateConfigurationStatus"]
+  | .tCommitBegin _ ridx _ => [.setN "rollbackIndex" ridx, .setN "transaction.Status.Rollback.Index" ridx,
+      .setN "transaction.Status.Change.Commit.State" 1, .write "r.updateTransactionStatus"]
+  | .tCommitFailed _ => [.setN "transaction.Status.Change.Commit.State" 5,
+      .setN "transaction.Status.Change.Commit.Failure.Type" 7,
+      .setN "transaction.Status.Change.Apply.State" 4, .write "r.updateTransactionStatus"]
+  | .cSkip i => [.setN "configuration.Committed.Index" i, .setN "configuration.Committed.Change" i,
+      .write "r.updateConfigurationStatus"]
+  | .cCommit i _ => [.setN "configuration.Committed.Index" i, .setN "configuration.Committed.Change" i,
+      .setN "configuration.Committed.Revision" i, .setN "configuration.Committed.Ordinal" (c.cOrdinal + 1),
+      .write "r.updateConfigurationStatus"]
+  | .tCommitDone _ ord => [.setN "transaction.Status.Change.Commit.State" 2,
+      .setN "transaction.Status.Change.Ordinal" ord, .write "r.updateTransactionStatus"]
+  -- applyChange
+  | .tApplyBegin _ => [.setN "transaction.Status.Change.Apply.State" 1, .write "r.updateTransactionStatus"]
+  | .tApplyAbort _ => [.setN "transaction.Status.Change.Apply.State" 3, .write "r.updateTransactionStatus"]
+  | .aSkip i ord =>
+      (if swap then [.setN "configuration.Applied.Index" i, .setN "configuration.Applied.Target" i]
+       else [.setN "configuration.Applied.Target" i, .setN "configuration.Applied.Index" i]) ++
+      [.setN "configuration.Applied.Ordinal" ord, .write "r.updateConfigurationStatus"]
+  | .aTarget i => [.setN "configuration.Applied.Target" i, .write "r.updateConfigurationStatus"]
+  | .tApplyDone _ => [.setN "transaction.Status.Change.Apply.State" 2, .write "r.updateTransactionStatus"]
+  | .tApplyFailed _ f => [.setN "transaction.Status.Change.Apply.State" 5,
+      .setN "transaction.Status.Change.Apply.Failure.Type" (failCode f), .write "r.updateTransactionStatus"]
+  | .aFailed i ord => [.setN "configuration.Applied.Index" i, .setN "configuration.Applied.Ordinal" ord,
+      .write "r.updateConfigurationStatus"]
+  | .aApply i ord _ => [.setN "configuration.Applied.Index" i, .setN "configuration.Applied.Ordinal" ord,
+      .setN "configuration.Applied.Revision" i, .write "r.updateConfigurationStatus"]
+  -- commitRollback
   | .cRbTarget _ r => [.setN "configuration.Committed.Target" r, .write "r.updateConfigurationStatus"]
   | .tRbCommitBegin _ => [.setN "transaction.Status.Rollback.Commit.State" 1, .write "r.updateTransactionStatus"]
   | .cRbCommit i r _ => [.setN "configuration.Committed.Index" i, .setN "configuration.Committed.Ordinal" (c.cOrdinal + 1),
       .setN "configuration.Committed.Revision" r, .write "r.updateConfigurationStatus"]
   | .tRbCommitDone _ ord => [.setN "transaction.Status.Rollback.Ordinal" ord,
       .setN "transaction.Status.Rollback.Commit.State" 2, .write "r.updateTransactionStatus"]
-  | _ => [.misc "act of another function"]
+  -- applyRollback
+  | .aRbTarget _ r => [.setN "configuration.Applied.Target" r, .write "r.updateConfigurationStatus"]
+  | .tRbApplyBegin _ => [.setN "transaction.Status.Rollback.Apply.State" 1, .write "r.updateTransactionStatus"]
+  | .aRbFailed i ord => [.setN "configuration.Applied.Index" i, .setN "configuration.Applied.Ordinal" ord,
+      .write "r.updateConfigurationStatus"]
+  | .tRbApplyFailed _ f => [.setN "transaction.Status.Rollback.Apply.State" 5,
+      .setN "transaction.Status.Rollback.Apply.Failure.Type" (failCode f), .write "r.updateTransactionStatus"]
+  | .aRbApply i ord r _ => [.setN "configuration.Applied.Index" i, .setN "configuration.Applied.Ordinal" ord,
+      .setN "configuration.Applied.Revision" r, .write "r.updateConfigurationStatus"]
+  | .tRbApplyDone _ => [.setN "transaction.Status.Rollback.Apply.State" 2, .write "r.updateTransactionStatus"]
 
 def retOf (i : Nat) (p : Plan) : Tok :=
   if p.err then .ret "controller.Result{}, false, err" []
@@ -114,9 +211,55 @@ def retOf (i : Nat) (p : Plan) : Tok :=
     | none => .ret "controller.Result{}, true, nil" []
     | some n => .ret "controller.Result{Requeue: controller.NewID(configapi.TransactionID{Target: _, Index: _})}, true, nil" [0, n]
 
+/-- the trace a twin outcome of `commitChange` / `commitRollback` stands for -/
 def outcomeTrace (i : Nat) (c : Cfg) : Outcome → List Tok
   | .fall => [.ret "controller.Result{}, false, nil" []]
-  | .plan p => p.acts.flatMap (actToks c) ++ [retOf i p]
+  | .plan p => p.acts.flatMap (actToks false c) ++ [retOf i p]
   | .panic _ => [.misc "panic"]
+
+/-- the plan went through `applyValues` (the twin's `afterSend`): the request was sent, or the plan
+    does nothing at all (the guards of `applyValues` or the request construction stopped it) -/
+def viaSend (p : Plan) : Bool := p.send.isSome || p.acts.isEmpty
+
+/-- how an apply function returns -/
+def applyRet (p : Plan) : Tok :=
+  if p.send.isNone && p.acts.isEmpty then .ret "controller.Result{}, false, err" []  -- not sent: `applyValues`' own (nil) error
+  else if p.err then .ret "controller.Result{}, false, err" []                         -- transient answer: retried
+  else if p.acts.isEmpty then .ret "controller.Result{}, false, nil" []               -- PermissionDenied: superseded
+  else match p.requeue with
+    | none => .ret "controller.Result{}, true, nil" []
+    | some n => .ret "controller.Result{Requeue: controller.NewID(configapi.TransactionID{Target: _, Index: _})}, true, nil" [0, n]
+
+/-- the trace a twin outcome of `applyChange` / `applyRollback` stands for -/
+def outcomeTraceA (swap : Bool) (c : Cfg) : Outcome → List Tok
+  | .fall => [.ret "controller.Result{}, false, nil" []]
+  | .plan p => (if viaSend p then [.write "r.applyValues"] else []) ++ p.acts.flatMap (actToks swap c) ++ [applyRet p]
+  | .panic _ => [.misc "panic"]
+
+/-- the environment of one apply invocation as the skeleton's abstract state sees it -/
+def xApply (s : Sys) (c : Cfg) (values : Values) (ans : DevAns) (cls : AnsClass) : SkX :=
+  { okSend := canSend s c && sendable values, ans := ans,
+    failureType := match cls with | .fail f => failCode f | _ => 0 }
+
+/-- the environment of one `commitChange` invocation -/
+def xCommit (treeErr : Bool) (verdict : Verdict) : SkX :=
+  { treeErr := treeErr, plugin := verdict != .noPlugin, invalid := verdict == .invalid }
+
+/-- how a function of the reconciler returns to the dispatch function that called it -/
+def retOk : Outcome → Bool
+  | .plan p => !p.err && !p.acts.isEmpty
+  | _ => false
+
+def retErr : Outcome → Bool
+  | .plan p => p.err
+  | _ => false
+
+/-- what `reconcileChange` / `reconcileRollback` return, given what the two functions they call return -/
+def chainTrace (first second : Outcome) : List Tok :=
+  if retErr first then [.ret "controller.Result{}, false, err" []]
+  else if retOk first then [.ret "result, true, nil" []]
+  else if retErr second then [.ret "controller.Result{}, false, err" []]
+  else if retOk second then [.ret "result, true, nil" []]
+  else [.ret "controller.Result{}, false, nil" []]
 
 end OnosVerif.V3.Skel
